@@ -159,7 +159,16 @@ def main(argv):
     a = ap.parse_args(argv)
     seed = int(os.environ.get("VERIF_SEED", "0") or 0)
     prop = a.prop.upper()
-    ctx = Ctx(prop, a.tier, seed)
+    tier = a.tier
+    if a.replay:
+        # a replay file records tier and seed; every case is re-derived deterministically from them, so the
+        # recorded violations (printed first) are re-checked by running the same exploration again
+        rp = json.load(open(a.replay))
+        tier, seed = rp.get("tier", tier), int(rp.get("seed", seed))
+        print(f"replaying {a.replay}: property={rp.get('property')} tier={tier} seed={seed}, {len(rp.get('violations', []))} recorded violation(s)")
+        for v in rp.get("violations", [])[:10]:
+            print(f"  recorded: {v['what'][:200]} [{v['signature']}]")
+    ctx = Ctx(prop, tier, seed)
     try:
         mod = __import__(f"vlib.checks.{prop.lower()}", fromlist=["run"])
         mod.run(ctx)
